@@ -10,6 +10,8 @@ for d in seeded/*/; do
   git -C /repo apply $PWD/$d/patch.diff || { echo "$n: patch does not apply"; fail=1; continue; }
   out=$(./check $p --tier quick 2>/dev/null); rc=$?
   git -C /repo checkout -- .
+  # the run above rewrote the evidence file from a seeded tree: put the committed (clean-tree) record back
+  git -C /verif checkout -- evidence/$p.json 2>/dev/null
   v=$(echo "$out" | grep -c "^VIOLATION property=$p ")
   echo "$n: property=$p rc=$rc violations=$v $(echo "$out" | grep "^VIOLATION" | head -1 | sed 's/.*obligation=//')"
   [ $rc -ne 1 ] && fail=1
